@@ -28,6 +28,7 @@ static inline bool fnz(mpf_srcptr f) { return f->_mp_size != 0; }
 static inline uint64_t bc(const Args& a, uint64_t m) { return a.u[1] % m; }           // a bit count / small exponent
 static inline int nbase(const Args& a) { return 2 + (int)((unsigned)a.base % 61); }     // 2..62
 static inline int nbase36(const Args& a) { return 2 + (int)((unsigned)a.base % 35); }   // 2..36
+static inline int asprintf_width(const Args& a) { static const int W[6] = {255, 256, 257, 511, 512, 513}; return (a.base & 1) ? W[a.u[2] % 6] : (int)(a.u[2] % 600); }   // around the internal buffer sizes of the printf code
 static inline std::string take_str(char* p) { std::string s = p; void (*fr)(void*, size_t); mp_get_memory_functions(nullptr, nullptr, &fr); fr(p, s.size() + 1); return s; }
 static inline std::string mem_out(size_t (*w)(FILE*, const Args&), const Args& a, size_t* ret) { char* m = nullptr; size_t ml = 0; FILE* fp = open_memstream(&m, &ml); *ret = w(fp, a); fclose(fp); std::string s(m, ml); free(m); return s; }
 
@@ -166,6 +167,7 @@ static const Op OPS[] = {
   OPZ(mpz_init_set_str, "Z=", true, { mpz_clear(Z0); RI(mpz_init_set_str(Z0, a.str.c_str(), a.base % 63 == 1 ? 0 : (int)((unsigned)a.base % 63))); }, 0),
   OPZ(mpz_inits_clears, "ZZ=", a.z[0] != a.z[1], { mpz_clears(Z0, Z1, (mpz_ptr)0); mpz_inits(Z0, Z1, (mpz_ptr)0); mpz_set_ui(Z1, U0); }, 0),
   OPZ(mpq_inits_clears, "Q=", true, { mpq_clears(Q0, (mpq_ptr)0); mpq_inits(Q0, (mpq_ptr)0); mpq_set_si(Q0, S0 % 1000, 1 + U0 % 1000); mpq_canonicalize(Q0); }, 0),
+  OPZ(gmp_asprintf_width, "=Z", true, { int w = asprintf_width(a); char* p = nullptr; int n = gmp_asprintf(&p, (a.base & 2) ? "%-*Zd" : "%*Zx", w, Z0); RI(n); r.sv.push_back(take_str(p)); }, F_STDIO),
   OPZ(mpf_rrandomb, "F=R", true, mpf_rrandomb(F0, a.r, (mp_size_t)(a.s[0] % 9), (mp_exp_t)(a.u[2] % 50)), F_RAND),
 };
 static const size_t NOPS = sizeof OPS / sizeof OPS[0];
